@@ -329,6 +329,12 @@ def one_case(ctx, res, drv, rng, SC, DC, ne, np_, nc, length, use_dm, init=False
         if "1" in meas and any(c in inp["ops"] for c in ("CX", "CZ")):
             res.nontrivial(inp["ops"], inp["det"], inp["script"], inp["init"])
         res.branch(["meas:random"] * meas.count("1") + ["meas:det"] * meas.count("0"))
+        # drawn bits: consumed exactly by the random measurements in probabilistic mode, never under a forced setting
+        # (C01 `settings_whole_run`); the DM backend's `choice` counts as a draw only when both outcomes are possible
+        want_used = meas.count("1") if inp["det"] == "p" else 0
+        for name in ("stab", "dm"):
+            if name in out and not isinstance(out[name][0], str) and out[name][2] != want_used:
+                res.exact_break(f"circ.stab:rng-draws[{name}]", input=inp, impl=f"used={out[name][2]}", model=f"random measurements={want_used}")
         mrec = [int(c) for c in rep["rec"]] if rep["rec"] != "-" else []
         if "stab" in out and not isinstance(out["stab"][0], str):
             data, rec, used = out["stab"]
